@@ -10,7 +10,9 @@ def alphabet(sessions=(1, 2, 3)):
     al = []
     for s in sessions:
         al += [f"C {s} use-db a ta", f"C {s} use-db b tb", f"C {s} use-db a wrong", f"C {s} use-db a u up", f"C {s} use-db nodb x", f"CLOSE {s}"]
-    al += ["HTTP 7 use-db a ta; get k", "HTTP 7 use-db a wrong; use-db b tb", "HTTP 7 use-db a ta; use-db b tb; keys"]
+    al += ["HTTP 7 use-db a ta; get k", "HTTP 7 use-db a wrong; use-db b tb", "HTTP 7 use-db a ta; use-db b tb; keys",
+           # a request that binds a database and is then REFUSED something: the session still ends with the request
+           "HTTP 7 use-db a ta; use-db a wrong", "HTTP 7 use-db b tb; get", "HTTP 7 use-db a ta; bogus; keys", "HTTP 7 use-db a ta; get $$token; use-db b tb"]
     return al
 
 class C17(Spec):
